@@ -102,6 +102,12 @@ CHECKS = {
             "loader mirror on the items of the real parse of base and decorated text; direct: seven decorations x 46 comment strings, "
             "per-load time limit, layout / membership / numerics compared; three directed lexer-level known findings.",
             "Gallina loader model with inertness theorems + metamorphic execution on decorated texts"),
+    "C11": ("Theorems (partial: the writer's blocks contain exactly the atoms, each under its own components; no header-less block "
+            "follows a headed one; same definitions give the same layout) + correspondence: model-level round trip Save.save_items -> "
+            "Load.load in the extracted code, and the loader mirror on the parse of the file the implementation saved; direct: save -> load "
+            "must load, declared atoms (values, units, descriptions, membership) equal, monitored values / Euler / generalized RL numerically "
+            "equal by name, for 37 constructs sympy normalises, random annotated models and the shipped CellML models.",
+            "Gallina model of the writer's block structure + round-trip differential execution"),
 }
 
 def main():
